@@ -101,10 +101,10 @@ Definition x_C19_serve_ok (v : val) : val :=
 (* ---- real loopback: case = (timeoutMs head fillLen fillSeed splits gapUs rsize silent);
    observation = (decision handed nrecv equal) *)
 Definition x_C19_loop_run (c : val) : val :=
-  let '(d, handed, nrecv, eq) := loop_run (as_bytes (nthv 1 c)) (as_nat (nthv 2 c)) (as_bool (nthv 7 c)) in
-  VL [enc_dec d; vnat handed; vnat nrecv; vbool eq].
+  let '(d, handed, nrecv, eq) := loop_run (as_bytes (nthv 1 c)) (as_int (nthv 2 c)) (as_bool (nthv 7 c)) in
+  VL [enc_dec d; vnat handed; VI nrecv; vbool eq].
 Definition x_C19_loop_ok (v : val) : val :=
   let c := nthv 0 v in let obs := nthv 1 v in
-  vbool (loop_wf (as_bytes (nthv 1 c)) (as_nat (nthv 2 c)) &&
-         ok_loop (as_bytes (nthv 1 c)) (as_nat (nthv 2 c)) (as_bool (nthv 7 c))
-                 (dec_dec (nthv 0 obs)) (as_nat (nthv 1 obs)) (as_nat (nthv 2 obs)) (as_bool (nthv 3 obs))).
+  vbool (loop_wf (as_bytes (nthv 1 c)) (as_int (nthv 2 c)) &&
+         ok_loop (as_bytes (nthv 1 c)) (as_int (nthv 2 c)) (as_bool (nthv 7 c))
+                 (dec_dec (nthv 0 obs)) (as_nat (nthv 1 obs)) (as_int (nthv 2 obs)) (as_bool (nthv 3 obs))).
